@@ -405,7 +405,9 @@ pub fn candles(r: &mut Rng, len: usize, cfg: &FeedCfg, fc: &mut FaultCount) -> V
 				bump(fc, "feed:degenerate_bar");
 			}
 		}
-		if !(c.is_finite() && c > 1e-200 && c < 1e200) {
+		// (a long walk may drift by many orders of magnitude; beyond 1e+-60 products of prices and volumes overflow, which
+		// is not a rounding effect)
+		if !(c.is_finite() && c > 1e-60 && c < 1e60) {
 			c = 100.0 * scale;
 		}
 	}
@@ -435,10 +437,18 @@ pub fn to_in_candles(v: &[[f64; 5]]) -> Vec<In> {
 /// a long one-sided stream: geometric drift with a small periodic ripple (local peaks and troughs every few bars, no
 /// change of the overall direction) - the regime that advances consecutive-bar / same-side counters for thousands of steps
 pub fn trend_ripple(r: &mut Rng, len: usize) -> Vec<[f64; 5]> {
-	let up = r.chance(0.5);
+	trend_ripple_v(r, len, None, None)
+}
+
+/// the same with the direction and/or the strictly monotone variant (no ripple: not a single bar against the trend) fixed
+pub fn trend_ripple_v(r: &mut Rng, len: usize, up: Option<bool>, monotone: Option<bool>) -> Vec<[f64; 5]> {
+	let up_drawn = r.chance(0.5);
+	let up = up.unwrap_or(up_drawn);
 	let g = 10f64.powf(-(2.5 + r.unit() * 2.5)) * if up { 1.0 } else { -1.0 };
 	let period = 3 + r.usize_below(5);
-	let a = g.abs() * period as f64 * (0.0 + r.unit() * 3.0) * if r.chance(0.25) { 0.0 } else { 1.0 };
+	let amp = r.unit() * 3.0;
+	let mono_drawn = r.chance(0.25);
+	let a = g.abs() * period as f64 * amp * if monotone.unwrap_or(mono_drawn) { 0.0 } else { 1.0 };
 	let p0 = 50.0 + r.unit() * 100.0;
 	let vol = 10f64.powi(r.range(0, 5) as i32);
 	let mut out = Vec::with_capacity(len);
@@ -459,5 +469,47 @@ pub fn trend_ripple(r: &mut Rng, len: usize) -> Vec<[f64; 5]> {
 		let (o, h, l, c) = (vt(open), vt(hi), vt(lo), vt(close));
 		out.push([o, h.max(o).max(c), l.min(o).min(c), c, vt(vol * (0.5 + r.unit()))]);
 	}
+	out
+}
+
+/// volatile stretches separated by very long exactly flat ones (hundreds to thousands of identical bars): the regime in
+/// which exponentially weighted state decays by many orders of magnitude
+pub fn long_flats(r: &mut Rng, len: usize) -> Vec<[f64; 5]> {
+	let mut out: Vec<[f64; 5]> = Vec::with_capacity(len);
+	let mut fc = FaultCount::new();
+	let cfg = FeedCfg {
+		regimes: vec![Regime::Walk, Regime::ZigZag, Regime::Gap],
+		scale_exp: 0,
+		signed: false,
+		integer: false,
+		seg: 40,
+		window: 10,
+	};
+	while out.len() < len {
+		let v = 60 + r.usize_below(300);
+		let mut part = candles(r, v, &cfg, &mut fc);
+		if let Some(last) = out.last() {
+			// continue at the level the flat stretch ended on
+			let k = last[3] / part[0][0];
+			for c in part.iter_mut() {
+				for x in c.iter_mut().take(4) {
+					*x = vt(*x * k);
+				}
+			}
+		}
+		out.extend(part);
+		let very_long = r.chance(0.3);
+		let flat = 400 + r.usize_below(if very_long { 12_000 } else { 2_500 });
+		let last = *out.last().unwrap();
+		let variant = r.below(3);
+		for _ in 0..flat {
+			out.push(match variant {
+				0 => last,
+				1 => [last[3], last[3], last[3], last[3], last[4]],
+				_ => [last[0], last[1], last[2], last[3], vt(last[4] * (0.5 + r.unit()))],
+			});
+		}
+	}
+	out.truncate(len);
 	out
 }
